@@ -49,8 +49,9 @@ class C06(Check):
         return st.fixed_dictionaries(dict(family=st.sampled_from(FAMILIES), R=f(5.0, 500.0), sign=st.sampled_from([1, -1]),
                                           fill=f(0.05, 0.95), n=f(1.3, 4.0), a=f(0.1, 0.9), b=f(1.1, 6.0),
                                           wl=f(0.45, 0.7), psf=st.booleans(),
-                                          grid=st.sampled_from([(64, 256), (64, 256), (48, 129), (32, 127), (64, 255), (50, 200),
-                                                                (33, 128)]),
+                                          grid=st.one_of(st.sampled_from([(64, 256), (48, 129), (32, 127), (64, 255), (50, 200),
+                                                                          (33, 128)]),
+                                                         st.tuples(st.integers(24, 70), st.integers(100, 300))),
                                           via=st.sampled_from(['build', 'build', 'setters', 'setters', 'scaled']),
                                           detune=st.sampled_from(['all', 'conic', 'radius', 'index', 'thickness'])))
 
